@@ -20,9 +20,16 @@ Import-free, executable, generic over the coordinate type.
   items rayon runs ONE sequential fold, which is what `scan` models (first index among
   equal rounded distances wins).  Rayon's reduce folder then applies the reduce operator once,
   with the identity `(0, 0, None, INFINITY)` as LEFT operand, which returns the fold's result
-  unchanged (`0 + c`, `0 + w`, `INFINITY < d` is false so the right operand's nearest point is
-  kept); it is never applied to two non-identity operands.  Inputs of 4096 items or more are
-  outside this model (the harness judges them with its oracles only).
+  unchanged (`0 + c`, `0 + w`; since /repo f4e2819 the operator takes the RIGHT operand's
+  nearest point iff it is strictly nearer: `d < INFINITY` holds iff the fold found a point,
+  otherwise the identity's `(None, INFINITY)` is kept – which is what the fold holds then).
+  With 4096 items or more there are several blocks; the operator keeps the LEFT operand on a
+  tie like the fold keeps the first item, so the reduction still returns the tuple of the one
+  sequential fold, pivot index included, whatever the block layout – proved for every
+  coordinate type whose comparisons are a strict weak order, rounding arithmetic included
+  (`Props/C06b.lean: rcb_scan_rounded_tree_free`, `rcb_bb_schedule_free_rounded`).  Before
+  f4e2819 the right operand won ties and the pivot depended on the block layout (defect N11).
+  The harnesses of C03/C04 judge inputs of 4096 items or more with their oracles only.
 * Unsafe unchecked indexing (`get_unchecked`) and checked indexing/`swap` are modelled
   alike: an out-of-range index is the outcome `Res.oob`.  `loop`s run on explicit fuel;
   running out is `Res.fuel`.
